@@ -313,6 +313,14 @@ def r8_compressed_index_read_completely(ctx, res):
     from .c07 import r9_directory_dispatch_and_decompression
     r9_directory_dispatch_and_decompression(ctx, res)
 
+def r9_index_content_stays_out_of_the_lexicon(ctx, res):
+    """"adding an index changes nothing else": what is exported for a lexicon comes from rows that lexicon owns - the exporter
+    reads through lexicon-scoped queries and takes metadata / ILI definitions from the rows of its own synsets (C03-R3, C03-R4);
+    a definition read from the shared `ilis` table would put the index gloss into every export."""
+    from .c03 import r3_metadata_provenance, r4_scoping
+    r3_metadata_provenance(ctx, res)
+    r4_scoping(ctx, res)
+
 RULES = [
     ('C19-R1', r1_write_set, 3),
     ('C19-R2', r2_upsert_shape, 6),
@@ -322,4 +330,5 @@ RULES = [
     ('C19-R6', r6_tab_separated_only, 3),
     ('C19-R7', r7_records_hold_the_cells_of_the_line, 2),
     ('C19-R8', r8_compressed_index_read_completely, 2),
+    ('C19-R9', r9_index_content_stays_out_of_the_lexicon, 15),
 ]
